@@ -1,7 +1,10 @@
 (* Proofs about the shell model over the *generated* table: C15 round trips. *)
 From Coq Require Import NArith List Bool Lia.
 Import ListNotations.
-From Mds Require Import Gen.ShellTable Shell.ShellModel.
+From Mds Require Import Gen.ShellTable Shell.ShellModel Shell.ShellSkel.
+(* the proofs are about the hand transcription of the skeleton; ShellFinal.v transports them to the
+   model assembled from the generated skeleton facts (ShellSkel.v: model = transcription) *)
+Import ShellSkel.Hand.
 Local Open Scope N_scope.
 Arguments update !s !c /.
 
